@@ -27,10 +27,12 @@ import (
 	"sort"
 	"strings"
 	"sync"
+	"syscall"
 	"testing"
 	"time"
 
 	"verifharness/hx"
+	hrig "verifharness/rig"
 
 	"github.com/ipfs/ipfs-cluster/adder/adderutils"
 	"github.com/ipfs/ipfs-cluster/api"
@@ -39,6 +41,7 @@ import (
 	cid "github.com/ipfs/go-cid"
 	logging "github.com/ipfs/go-log/v2"
 	peer "github.com/libp2p/go-libp2p-core/peer"
+	peerstore "github.com/libp2p/go-libp2p-core/peerstore"
 	rpc "github.com/libp2p/go-libp2p-gorpc"
 	ma "github.com/multiformats/go-multiaddr"
 	mh "github.com/multiformats/go-multihash"
@@ -75,6 +78,9 @@ type caseReq struct {
 	Fault     string `json:"fault"`
 	Hangup    string `json:"hangup"`
 	Gcerr     string `json:"gcerr"`
+	Daemon    string `json:"daemon"`
+	Cluster   string `json:"cluster"`
+	Peerfail  string `json:"peerfail"`
 }
 
 // caseIn: cases with the same Grp run on one rig in file order; Reset says
@@ -134,6 +140,7 @@ type wireResp struct {
 }
 
 type obsRec struct {
+	Dropped bool        `json:"dropped"` // no HTTP answer at all: the connection was dropped (every attempt)
 	PS0     []pinRec    `json:"ps0"`
 	Self    bool        `json:"self"`
 	Err     bool        `json:"err"`
@@ -194,6 +201,7 @@ type world struct {
 	fault       string  // Proxy.tla Faults: which RPC of the add path fails
 	gcerr       string  // Proxy.tla GCErrs: which collected keys the cluster reports as failed
 	defaultRoot cid.Cid // root of the rig's content under the default add parameters (world "wr")
+	peerfail    string  // real cluster: the peer whose IPFS connector fails RepoStat
 }
 
 func mkCid(rng *rand.Rand, v1 bool) cid.Cid {
@@ -633,12 +641,71 @@ type daemon struct {
 	srv   *httptest.Server
 	calls []dcall
 	resps []wireResp
+	reset bool          // Proxy.tla daemon = "reset": accept and reset every connection
+	delay time.Duration // Proxy.tla daemon = "slow": wait before answering
 }
+
+// gateListener lets the daemon reset connections right after accepting them.
+type gateListener struct {
+	net.Listener
+	d *daemon
+}
+
+func (g *gateListener) Accept() (net.Conn, error) {
+	for {
+		c, err := g.Listener.Accept()
+		if err != nil {
+			return c, err
+		}
+		g.d.mu.Lock()
+		reset := g.d.reset
+		g.d.mu.Unlock()
+		if !reset {
+			return c, nil
+		}
+		if tc, ok := c.(*net.TCPConn); ok {
+			tc.SetLinger(0)
+		}
+		c.Close()
+	}
+}
+
+func newDaemon() *daemon {
+	d := &daemon{}
+	d.srv = httptest.NewUnstartedServer(http.HandlerFunc(d.handle))
+	d.srv.Listener = &gateListener{Listener: d.srv.Listener, d: d}
+	d.srv.Start()
+	return d
+}
+
+// setMode puts the daemon into one of the spec's modes that it realises itself
+// ("down" is realised by a proxy whose node address refuses connections).
+func (d *daemon) setMode(mode string) {
+	d.mu.Lock()
+	d.reset = mode == "reset"
+	d.delay = 0
+	if mode == "slow" {
+		d.delay = slowDelay
+	}
+	d.mu.Unlock()
+	if mode == "reset" {
+		d.srv.CloseClientConnections() // no kept-alive connection may bypass the gate
+	}
+}
+
+// The "slow" proxy is configured with 300 ms for every timeout that is about
+// the client leg (read_header_timeout, idle_timeout); the slow daemon takes
+// more than 3x that before it starts to answer.
+const (
+	clientLegTimeout = 300 * time.Millisecond
+	slowDelay        = 1000 * time.Millisecond
+)
 
 var statuses = []int{200, 200, 200, 201, 302, 400, 403, 404, 500, 503}
 
 func (d *daemon) handle(rw http.ResponseWriter, r *http.Request) {
 	body, _ := io.ReadAll(r.Body)
+
 	sum := sha1.Sum([]byte(r.Method + " " + r.RequestURI + " " + digest(body)))
 	tag := hex.EncodeToString(sum[:8])
 	status := statuses[int(sum[0])%len(statuses)]
@@ -674,7 +741,11 @@ func (d *daemon) handle(rw http.ResponseWriter, r *http.Request) {
 	d.calls = append(d.calls, dcall{Method: r.Method, URI: r.RequestURI, Body: digest(body), Hdrs: hdrString(r.Header, r.Host),
 		Pclass: classify(r.URL.Path)})
 	d.resps = append(d.resps, wireResp{Status: status, Body: digest(sent), Hdrs: respHdrString(h)})
+	delay := d.delay
 	d.mu.Unlock()
+	if delay > 0 {
+		time.Sleep(delay) // "slow": the call is on record, the answer starts late
+	}
 	rw.WriteHeader(status)
 	if sum[3]%2 == 0 && len(out) > 200 {
 		// stream in two pieces (chunked)
@@ -701,47 +772,48 @@ func (d *daemon) take() ([]dcall, []wireResp) {
 
 // ---------------------------------------------------------------- rig
 
+type proxyEnd struct {
+	srv    *ipfsproxy.Server
+	client *http.Client
+}
+
 type rig struct {
 	retries int
 	n       int
 	rng     *rand.Rand
 	w       *world
 	d       *daemon
-	proxy   *ipfsproxy.Server
-	sock    string
-	client  *http.Client
+	ends    map[string]*proxyEnd // "up": node = the daemon; "down": node refuses connections; "slow": small client-leg timeouts
+	refused int                  // fd of a bound, never listening socket (its port refuses connections and stays ours)
 	content []byte
+	real    []*hrig.Rig // real Cluster peers behind the proxy (cluster = "real3"), else nil
+	shared  *hrig.SharedState
 }
 
-func newRig(n int, seed int64, dir string) (*rig, error) {
-	r := &rig{n: n, rng: rand.New(rand.NewSource(seed*1000 + int64(n)))}
-	r.w = newWorld(r.rng)
-	r.content = make([]byte, 4000)
-	r.rng.Read(r.content)
-	r.d = &daemon{}
-	r.d.srv = httptest.NewServer(http.HandlerFunc(r.d.handle))
-	u, _ := url.Parse(r.d.srv.URL)
-	host, port, _ := net.SplitHostPort(u.Host)
-	nodeAddr, err := ma.NewMultiaddr(fmt.Sprintf("/ip4/%s/tcp/%s", host, port))
+// refusedPort returns a loopback port on which connections are refused for as
+// long as the returned descriptor stays open (bound, not listening).
+func refusedPort() (int, int, error) {
+	fd, err := syscall.Socket(syscall.AF_INET, syscall.SOCK_STREAM, 0)
 	if err != nil {
-		return nil, err
+		return 0, 0, err
 	}
-	r.sock = filepath.Join(dir, fmt.Sprintf("p%d.sock", n))
-	listen, err := ma.NewMultiaddr("/unix" + r.sock)
+	if err := syscall.Bind(fd, &syscall.SockaddrInet4{Port: 0, Addr: [4]byte{127, 0, 0, 1}}); err != nil {
+		syscall.Close(fd)
+		return 0, 0, err
+	}
+	sa, err := syscall.Getsockname(fd)
 	if err != nil {
-		return nil, err
+		syscall.Close(fd)
+		return 0, 0, err
 	}
-	network := "unix"
-	if os.Getenv("VERIF_C12_TCP") != "" {
-		l, err := net.Listen("tcp", "127.0.0.1:0")
-		if err != nil {
-			return nil, err
-		}
-		r.sock = l.Addr().String()
-		_, p, _ := net.SplitHostPort(r.sock)
-		l.Close()
-		network = "tcp"
-		listen, _ = ma.NewMultiaddr("/ip4/127.0.0.1/tcp/" + p)
+	return fd, sa.(*syscall.SockaddrInet4).Port, nil
+}
+
+func (r *rig) addProxy(kind, dir string, nodeAddr ma.Multiaddr, c *rpc.Client) error {
+	sock := filepath.Join(dir, fmt.Sprintf("p%d-%s.sock", r.n, kind))
+	listen, err := ma.NewMultiaddr("/unix" + sock)
+	if err != nil {
+		return err
 	}
 	cfg := &ipfsproxy.Config{}
 	cfg.Default()
@@ -749,44 +821,133 @@ func newRig(n int, seed int64, dir string) (*rig, error) {
 	cfg.ListenAddr = []ma.Multiaddr{listen}
 	cfg.ReadTimeout = 0
 	cfg.WriteTimeout = 0
+	if kind == "slow" {
+		cfg.ReadHeaderTimeout = clientLegTimeout
+		cfg.IdleTimeout = clientLegTimeout
+	}
 	p, err := ipfsproxy.New(cfg)
 	if err != nil {
-		return nil, err
-	}
-	c, err := r.w.rpcClient()
-	if err != nil {
-		return nil, err
+		return err
 	}
 	p.SetClient(c)
-	r.proxy = p
-	sock := r.sock
-	r.client = &http.Client{
+	cl := &http.Client{
 		Transport: &http.Transport{
 			DialContext: func(ctx context.Context, _, _ string) (net.Conn, error) {
 				var dl net.Dialer
-				return dl.DialContext(ctx, network, sock)
+				return dl.DialContext(ctx, "unix", sock)
 			},
 			DisableCompression: true,
 			MaxIdleConns:       4,
+			DisableKeepAlives:  kind == "slow",
 		},
 		CheckRedirect: func(*http.Request, []*http.Request) error { return http.ErrUseLastResponse },
 		Timeout:       60 * time.Second,
 	}
-	// wait until the proxy serves
+	r.ends[kind] = &proxyEnd{srv: p, client: cl}
 	deadline := time.Now().Add(20 * time.Second)
 	for {
-		conn, err := net.Dial(network, sock)
+		conn, err := net.Dial("unix", sock)
 		if err == nil {
 			conn.Close()
-			break
+			return nil
 		}
 		if time.Now().After(deadline) {
-			return nil, fmt.Errorf("proxy did not start listening: %v", err)
+			return fmt.Errorf("proxy did not start listening: %v", err)
 		}
 		time.Sleep(10 * time.Millisecond)
 	}
-	if err := r.buildRootTable(); err != nil {
+}
+
+// statIPFS is the IPFS connector of a real Cluster peer: RepoStat answers the
+// peer's scripted numbers (Proxy.tla RealStat) or fails when the case says so.
+type statIPFS struct {
+	*hrig.FakeIPFS
+	name      string
+	size, max uint64
+	w         *world
+}
+
+func (s *statIPFS) RepoStat(context.Context) (*api.IPFSRepoStat, error) {
+	s.w.mu.Lock()
+	fail := s.w.peerfail == s.name
+	s.w.op(opRec{M: "IPFS.RepoStat", Tgt: NA, Mode: NA, Upd: NA, Name: NA, Repl: NA, OK: !fail})
+	s.w.mu.Unlock()
+	if fail {
+		return nil, errors.New("injected fault: ipfs daemon of " + s.name + " does not answer")
+	}
+	return &api.IPFSRepoStat{RepoSize: s.size, StorageMax: s.max}, nil
+}
+
+var realStats = map[string][2]uint64{"p1": {7, 70}, "p2": {500, 9000}, "p3": {30000, 100000}}
+
+// newRig builds one rig. real = true puts three real Cluster peers (real RPC
+// server with the authorization policy, connected libp2p hosts, one shared
+// pinset) behind the proxy, which gets the RPC client of peer p1 exactly as an
+// API component of that peer does.
+func newRig(n int, seed int64, dir string, real bool) (*rig, error) {
+	r := &rig{n: n, rng: rand.New(rand.NewSource(seed*1000 + int64(n))), ends: map[string]*proxyEnd{}, refused: -1}
+	r.w = newWorld(r.rng)
+	r.content = make([]byte, 4000)
+	r.rng.Read(r.content)
+	r.d = newDaemon()
+	u, _ := url.Parse(r.d.srv.URL)
+	host, port, _ := net.SplitHostPort(u.Host)
+	nodeAddr, err := ma.NewMultiaddr(fmt.Sprintf("/ip4/%s/tcp/%s", host, port))
+	if err != nil {
 		return nil, err
+	}
+	fd, rport, err := refusedPort()
+	if err != nil {
+		return nil, err
+	}
+	r.refused = fd
+	downAddr, _ := ma.NewMultiaddr(fmt.Sprintf("/ip4/127.0.0.1/tcp/%d", rport))
+	var c *rpc.Client
+	if real {
+		r.shared = hrig.NewSharedState()
+		ids := []peer.ID{}
+		for _, name := range []string{"p1", "p2", "p3"} {
+			st := realStats[name]
+			cr, err := hrig.NewRig(hrig.Opts{Shared: r.shared,
+				IPFS: &statIPFS{FakeIPFS: hrig.NewFakeIPFS(), name: name, size: st[0], max: st[1], w: r.w}})
+			if err != nil {
+				return nil, fmt.Errorf("real cluster peer %s: %v", name, err)
+			}
+			r.real = append(r.real, cr)
+			ids = append(ids, cr.ID)
+		}
+		for _, a := range r.real {
+			for _, b := range r.real {
+				if a != b {
+					a.Host.Peerstore().AddAddrs(b.ID, b.Host.Addrs(), peerstore.PermanentAddrTTL)
+				}
+			}
+		}
+		r.shared.SetPeers(ids)
+		c = r.real[0].RPC()
+		if c == nil {
+			return nil, errors.New("real cluster peer p1 handed no RPC client to its API component")
+		}
+	}
+	for _, kind := range []string{"up", "down", "slow"} {
+		cl := c
+		if !real {
+			if cl, err = r.w.rpcClient(); err != nil {
+				return nil, err
+			}
+		}
+		na := nodeAddr
+		if kind == "down" {
+			na = downAddr
+		}
+		if err := r.addProxy(kind, dir, na, cl); err != nil {
+			return nil, err
+		}
+	}
+	if !real {
+		if err := r.buildRootTable(); err != nil {
+			return nil, err
+		}
 	}
 	return r, nil
 }
@@ -794,9 +955,17 @@ func newRig(n int, seed int64, dir string) (*rig, error) {
 func (r *rig) close() {
 	ctx, cancel := context.WithTimeout(context.Background(), 10*time.Second)
 	defer cancel()
-	r.client.CloseIdleConnections()
-	r.proxy.Shutdown(ctx)
+	for _, e := range r.ends {
+		e.client.CloseIdleConnections()
+		e.srv.Shutdown(ctx)
+	}
 	r.d.srv.Close()
+	if r.refused >= 0 {
+		syscall.Close(r.refused)
+	}
+	for _, cr := range r.real {
+		cr.Close()
+	}
 }
 
 func (r *rig) multipartBody() ([]byte, string) {
@@ -1167,6 +1336,18 @@ func (r *rig) run(ci caseIn) (traceRec, error) {
 		r.retries++
 		time.Sleep(20 * time.Millisecond)
 	}
+	if d := ci.Req.Daemon; d == "down" || d == "reset" {
+		// The daemon is unreachable by construction and the proxy dropped the
+		// connection on every attempt without any HTTP answer: that is an
+		// observation (Proxy.tla AnswersAlways), not a transport accident.
+		r.w.mu.Lock()
+		ps := r.w.snapshot()
+		ops := append([]opRec{}, r.w.ops...)
+		r.w.mu.Unlock()
+		return traceRec{ID: ci.ID, Grp: ci.Grp, Req: ci.Req, Obs: obsRec{Dropped: true, PS0: ps, Self: true, Ops: ops, PS: ps,
+			Pins: []string{}, Keys: []string{}, Stat: []int{}, Addp: []addParams{}, GC: []gcEntry{}, Tkeys: []string{},
+			Dcalls: []dcall{}, Detail: "no answer, connection dropped 4 times: " + err.Error()}}, nil
+	}
 	return tr, err
 }
 
@@ -1181,9 +1362,24 @@ func (r *rig) runOnce(ci caseIn, c concrete) (traceRec, error) {
 	}
 	r.w.mu.Lock()
 	r.w.clearCalls()
-	r.w.fault, r.w.gcerr = q.Fault, q.Gcerr
+	r.w.fault, r.w.gcerr, r.w.peerfail = q.Fault, q.Gcerr, q.Peerfail
 	ps0 := r.w.snapshot()
 	r.w.mu.Unlock()
+	if r.real != nil && len(r.shared.Pins()) != 0 {
+		return traceRec{}, errors.New("the real cluster's pinset is not empty")
+	}
+	end := r.ends["up"]
+	switch q.Daemon {
+	case "down":
+		end = r.ends["down"]
+	case "slow":
+		end = r.ends["slow"]
+		r.d.setMode("slow")
+		defer r.d.setMode("up")
+	case "reset":
+		r.d.setMode("reset")
+		defer r.d.setMode("up")
+	}
 	r.d.take()
 
 	u, err := url.Parse("http://verif.local" + c.path)
@@ -1226,7 +1422,7 @@ func (r *rig) runOnce(ci caseIn, c concrete) (traceRec, error) {
 	}
 	sent := wireReq{Method: c.method, URI: u.RequestURI(), Body: digest(c.body), Hdrs: hdrString(req.Header, req.Host)}
 
-	resp, err := r.client.Do(req)
+	resp, err := end.client.Do(req)
 	if err != nil {
 		return traceRec{}, fmt.Errorf("request %s %s failed: %v", c.method, sent.URI, err)
 	}
@@ -1256,6 +1452,15 @@ func (r *rig) runOnce(ci caseIn, c concrete) (traceRec, error) {
 	ps := r.w.snapshot()
 	nblocks := r.w.nblocks
 	r.w.mu.Unlock()
+	if q.Route == "repo/stat" {
+		// the per-peer calls are made in parallel: their order carries no meaning
+		sort.SliceStable(ops, func(i, j int) bool {
+			if ops[i].M != ops[j].M {
+				return ops[i].M < ops[j].M
+			}
+			return ops[i].OK && !ops[j].OK
+		})
+	}
 
 	o := obsRec{
 		PS0:     ps0,
@@ -1319,7 +1524,7 @@ func (r *rig) hangUp(q caseReq, resp *http.Response) []byte {
 		}
 	}
 	resp.Body.Close()
-	r.client.CloseIdleConnections()
+	r.ends["up"].client.CloseIdleConnections()
 	start := time.Now()
 	sig := func() (int, bool) {
 		r.w.mu.Lock()
@@ -1484,7 +1689,12 @@ func TestDriver(t *testing.T) {
 	// groups in order of first appearance; group g runs on rig g mod nrigs
 	groups := [][]int{}
 	gidx := map[int]int{}
+	realCases := []int{}
 	for i, c := range cases {
+		if c.Req.Cluster == "real3" {
+			realCases = append(realCases, i)
+			continue
+		}
 		g, ok := gidx[c.Grp]
 		if !ok || c.Grp == 0 {
 			g = len(groups)
@@ -1497,9 +1707,6 @@ func TestDriver(t *testing.T) {
 	if nrigs > len(groups) {
 		nrigs = len(groups)
 	}
-	if nrigs < 1 {
-		nrigs = 1
-	}
 	out := make([]traceRec, len(cases))
 	okv := make([]bool, len(cases))
 	var wg sync.WaitGroup
@@ -1507,7 +1714,7 @@ func TestDriver(t *testing.T) {
 		wg.Add(1)
 		go func(n int) {
 			defer wg.Done()
-			rg, err := newRig(n, hx.Seed(), dir)
+			rg, err := newRig(n, hx.Seed(), dir, false)
 			if err != nil {
 				res.Infra("rig %d: %v", n, err)
 				return
@@ -1530,6 +1737,29 @@ func TestDriver(t *testing.T) {
 				}
 			}
 		}(n)
+	}
+	if len(realCases) > 0 {
+		wg.Add(1)
+		go func() {
+			defer wg.Done()
+			rg, err := newRig(100, hx.Seed(), dir, true)
+			if err != nil {
+				res.Infra("real cluster rig: %v", err)
+				return
+			}
+			defer rg.close()
+			for _, i := range realCases {
+				c := cases[i]
+				c.Reset = true
+				tr, err := rg.run(c)
+				if err != nil {
+					res.Infra("case %d: %v", c.ID, err)
+					break
+				}
+				out[i], okv[i] = tr, true
+				res.Case(c.Req, true)
+			}
+		}()
 	}
 	wg.Wait()
 	tp := os.Getenv("VERIF_TRACE")
